@@ -1,4 +1,5 @@
 import PyGam.Model.Dists
+import PyGam.Model.DistState
 import PyGam.Drv.Common
 namespace PyGam.Drv.C06
 open PyGam PyGam.Drv
@@ -27,6 +28,32 @@ def showCall : SamplerCall Float → String
   | .gamma a b => s!"gamma {showFloat a} {showFloat b}"
   | .wald a b => s!"wald {showFloat a} {showFloat b}"
 
+def showOptFloat : Option Float → String
+  | none => "none"
+  | some x => showFloat x
+
+/-- the data blocks of `phih`: `k` times `n edof w₁…wₙ y₁…yₙ mu₁…muₙ` -/
+def parsePhiBlocks? : Nat → List String → Option (List (PhiData Float))
+  | 0, [] => some []
+  | 0, _ :: _ => none
+  | k+1, n :: edof :: rest => do
+      let n ← n.toNat?; let edof ← parseFloat? edof
+      if rest.length < 3 * n then none else
+      let xs ← parseFloats? (rest.take (3 * n))
+      let blk : PhiData Float :=
+        ⟨n, edof, listToVec (xs.take n), listToVec ((xs.drop n).take n), listToVec (xs.drop (2 * n))⟩
+      let tl ← parsePhiBlocks? k (rest.drop (3 * n))
+      some (blk :: tl)
+  | _+1, _ => none
+
+/-- run `estimateStep` over the blocks; per step: what `phi` returned on the object as it was, and the `scale`
+attribute after `GAM._estimate_model_statistics`' assignment -/
+def runHistory (fam : Family) (levels : Float) : DistState Float → List (PhiData Float) → List String
+  | _, [] => []
+  | d, x :: xs =>
+      let d' := estimateStep d fam levels x
+      (showOptFloat (phiAt d fam levels x) ++ " " ++ showOptFloat d'.scale) :: runHistory fam levels d' xs
+
 /-- operations of the C06 model driver (`C06 <op> <args…>`); `none` ↦ `bad-op`.
 All numbers are IEEE doubles as bit patterns.
 * `V fam levels w mu`                         → `varFnW`
@@ -34,6 +61,8 @@ All numbers are IEEE doubles as bit patterns.
 * `kern fam levels scale w y mu`              → `logKernel … y y`, `logKernel … y mu`
 * `all fam levels scale w y mu`               → `varFnW`, `deviance` unscaled, scaled, `logKernel` at `y`, at `mu`
 * `phi fam levels known n edof w… y… mu…`     → `phi`
+* `phih fam levels init k (n edof w… y… mu…)×k` → per fit of the same object (`mkDist fam init`, `estimateStep`):
+                                                `phiAt` before the store and the stored `scale` after it
 * `sampler fam scale levels mu`               → the sampler call and its documented `(mean, variance)` / `TypeError` -/
 def handle : List String → Option String
   | ["V", fam, levels, w, mu] => do
@@ -63,6 +92,11 @@ def handle : List String → Option String
       let y := listToVec ((xs.drop n).take n)
       let mu := listToVec (xs.drop (2 * n))
       some (showFloat (phi known fam levels n edof w y mu))
+  | "phih" :: fam :: levels :: init :: k :: rest => do
+      let fam ← parseFam? fam; let levels ← parseFloat? levels; let init ← parseOptFloat? init
+      let k ← k.toNat?
+      let blocks ← parsePhiBlocks? k rest
+      some (joinWith " | " (runHistory fam levels (mkDist fam init) blocks))
   | ["sampler", fam, scale, levels, mu] => do
       let fam ← parseFam? fam; let scale ← parseOptFloat? scale
       let levels ← parseFloat? levels; let mu ← parseFloat? mu
